@@ -216,10 +216,121 @@ def check_exclude_proof(led):
 
 
 def check(led):
-    led.bounded_item('ConeCyl.calc_full_c: proved symbolically for vectors of the sizes 12 and 21 (all entries, load factor and prescribed values '
-                     'symbolic), all four admissible sets of prescribed amplitudes; bounded in the vector length only')
+    # instances of two concrete lengths (numpy's own insert on symbolic entries) and the proof for every series order
     check_full_c(led)
+    led.trust('np.insert(v, k, x) for a position k inside the explicit prefix shifts every later element by one (calc_full_c, any length)')
+    check_full_c_any_length(led)
     led.trust('numpy/scipy semantics used by the generic-entry model of COO matrices (cmverif/coosym.py): element-wise comparison and masked '
               'in-place arithmetic, np.where + np.take as a selection, toarray() sums stored entries, np.delete removes rows')
     check_exclude_proof(led)
     check_exclude(led)
+
+
+class PrefVec(object):
+    """a vector of symbolic length seen as (explicit first elements, tail): element k >= len(prefix) is base(k - offset).
+    Supports what calc_full_c does: copy, shape, in-place scaling of a concrete position, np.insert at a concrete position that is
+    not beyond the explicit prefix."""
+    def __init__(self, prefix, base, offset, length):
+        self.prefix, self.base, self.offset, self.length = list(prefix), base, offset, length
+
+    def copy(self):
+        return PrefVec(self.prefix, self.base, self.offset, self.length)
+
+    def sym_getattr(self, interp, name):
+        if name == 'copy':
+            return self.copy
+        if name == 'shape':
+            return (self.length,)
+        raise pysym.CheckerError('vector attribute %s' % name)
+
+    def sym_load(self, interp, k, node):
+        k = pysym._toint(k)
+        if k >= len(self.prefix):
+            raise pysym.CheckerError('read beyond the explicit prefix')
+        return self.prefix[k]
+
+    def sym_store(self, interp, k, v, node):
+        k = pysym._toint(k)
+        if k >= len(self.prefix):
+            raise pysym.CheckerError('store beyond the explicit prefix')
+        self.prefix[k] = v
+
+    def insert(self, pos, val):
+        pos = pysym._toint(pos)
+        if pos > len(self.prefix):
+            raise pysym.CheckerError('np.insert beyond the explicit prefix')
+        return PrefVec(self.prefix[:pos] + [val] + self.prefix[pos:], self.base, self.offset + 1, self.length + 1)
+
+    def at(self, k):
+        """element at the symbolic position k >= len(prefix)"""
+        return self.base(k - self.offset)
+
+
+def check_full_c_any_length(led):
+    """calc_full_c for EVERY series order: the reduced (or full) vector has symbolic length; its first three entries are explicit,
+    the others are seen through the generic position k"""
+    from ..poly import normal
+    from ..pysym import integer
+    for tag, (pdC, pdT) in SUBSETS.items():
+        it = PC.mk()
+        m1, m2, n2 = integer('m1'), integer('m2'), integer('n2')
+        it.facts += [to_z3(m1) >= 1, to_z3(m2) >= 1, to_z3(n2) >= 1, to_z3(real('r2')) > 0, to_z3(real('L')) > 0]
+        size = 3 + 3 * m1 + 6 * m2 * n2
+        excl = ([0] if pdC else []) + ([1] if pdT else []) + [2]
+        inc, uTM, thT, beta = real('inc'), real('uTM'), real('thetaTdeg'), real('betadeg')
+        it.np.insert = lambda arr, pos, val: arr.insert(pos, val)
+        it.np.ascontiguousarray = lambda a, dtype=None: a
+        for full in (False, True):
+            n = size if full else size - len(excl)
+
+            def cu_elem(k):
+                return P.atom('cu[%s]' % normal(k).text())
+            cu = PrefVec([cu_elem(P.const(k)) for k in range(3)], cu_elem, 0, n)
+
+            def run():
+                cc = PC.new_cc(it, model='clpt_donnell_bc1', alphadeg=0., r2=real('r2'), L=real('L'), m1=m1, m2=m2, n2=n2, pdC=pdC, pdT=pdT,
+                               uTM=uTM, thetaTdeg=thT, betadeg=beta, stack=[real('th0')], plyt=real('plyt'), laminaprop=(real('E1'),))
+                it.call(it.getattr(cc, '_rebuild'), [], {})
+                return cc, it.call(it.getattr(cc, 'calc_full_c'), [cu], dict(inc=inc))
+            res = it.explore(run)
+            name = '%s[%s,any series order,%s]' % (FC, tag, 'full-size input' if full else 'reduced input')
+            for path, out in res:
+                if out[0] == 'raise':
+                    led.fail(name + '/no-exception', FC, {'raises': out[1].tname, 'args': [str(a)[:100] for a in out[1].eargs]}, signature='raise')
+                    continue
+                cc, c = out[1]
+                ck = dict(zip(cc.attrs['excluded_dofs'], cc.attrs['excluded_dofs_ck']))
+                probs = []
+                if not isinstance(c, PrefVec):
+                    probs.append('result is %r' % (c,))
+                else:
+                    if not normal(c.length - size).is_zero():
+                        probs.append('length %s instead of %s' % (c.length, size))
+                    if sorted(ck) != sorted(excl):
+                        probs.append('excluded_dofs %s' % (sorted(ck),))
+                    # the three leading entries
+                    red = 0
+                    for k in range(3):
+                        got = c.prefix[k] if k < len(c.prefix) else c.at(P.const(k))
+                        if k in excl:
+                            want = inc * cu_elem(P.const(k)) if full else inc * ck[k]
+                        else:
+                            want = cu_elem(P.const(k if full else red))
+                        if k not in excl:
+                            red += 1
+                        if not K.compare(got if isinstance(got, P) else P.const(got), want)[0]:
+                            probs.append('entry %d: %s instead of %s' % (k, got, want))
+                    # explicit entries beyond the third and the generic tail position
+                    kk = integer('k_pos')
+                    for pos in list(range(3, len(c.prefix))) + [kk]:
+                        posP = pos if isinstance(pos, P) else P.const(pos)
+                        got = c.prefix[pos] if not isinstance(pos, P) else c.at(posP)
+                        want = cu_elem(posP if full else posP - len(excl))
+                        if not K.compare(got if isinstance(got, P) else P.const(got), want)[0]:
+                            probs.append('entry %s: %s instead of %s' % (posP, got, want))
+                nm = name + '/free entries kept, prescribed entries inc*ck'
+                if probs:
+                    led.fail(nm, FC, {'differences': probs[:6]}, signature='full_c_any')
+                else:
+                    led.ok(nm, FC)
+        led.solver_time('z3-feasibility', it.solver_time)
